@@ -371,9 +371,10 @@ theorem mkTableDirect_inv (a : CtorArgs) (specs : List FieldSpec) (ha : a.fields
 (`direct`), printed, re-formatted with any string, re-constructed from any string, or built with
 `fmt_obj=` from the format of any other reachable table with the same fields (`fromObj`: siblings
 made from one format object, with their own records, header, footer, limits and skipped columns);
-`removeFresh`: `table.remove_columns(names)` on a table whose widths are not negotiated. (Removing
-columns from a *printed* table is left out on purpose: the widths stay as negotiated for the rows
-that were visible with the removed break-by column — see the report.) -/
+`setLimitsFresh`, `removeFresh`: `table.fmt.set_limits(…)` / `table.remove_columns(names)` on a table whose
+widths are not negotiated. (Changing the limits
+of, or removing columns from, a *printed* table is left out on purpose: the widths stay as negotiated for
+the rows that were visible before, and feeding the format back re-negotiates them — see the report.) -/
 inductive Reach : CtorArgs → Tbl → Prop where
   | new (a : CtorArgs) (t : Tbl) : mkTable a = .ok t → Reach a t
   | direct (a : CtorArgs) (cs : List ColSpec) (lims : Option Int × Option Int) (t : Tbl) :
@@ -382,6 +383,8 @@ inductive Reach : CtorArgs → Tbl → Prop where
   | set (a : CtorArgs) (t t' : Tbl) (s : List Char) : Reach a t → applySetter t s = .ok t' → Reach a t'
   | ctor (a : CtorArgs) (t t' : Tbl) (s : List Char) : Reach a t →
       mkTable { a with fmt := some s, limits := Option.none, skip := Option.none } = .ok t' → Reach a t'
+  | setLimitsFresh (a : CtorArgs) (t : Tbl) (x y : Option Int) : Reach a t →
+      (∀ c ∈ t.fmt.cols, c.width = Option.none) → Reach a (setLimits t x y)
   | removeFresh (a : CtorArgs) (t : Tbl) (names : List (List Char)) : Reach a t →
       (∀ c ∈ t.fmt.cols, c.width = Option.none) → t.fmt.anySkipped = Option.none → Reach a (removeCols t names)
   | fromObj (b a : CtorArgs) (u : Tbl) (lims : Option (Option Int × Option Int))
@@ -399,6 +402,10 @@ theorem reach_inv (a : CtorArgs) (specs : List FieldSpec) (ha : a.fields = some 
     exact inv_congr_args a { a with fmt := some s, limits := Option.none, skip := Option.none } specs t'
       (mkTable_inv { a with fmt := some s, limits := Option.none, skip := Option.none } specs ha t' hm)
       rfl rfl rfl
+  | setLimitsFresh a t x y _ hw ih =>
+    have hi := ih ha
+    exact ⟨hi.nodup, hi.records_eq, hi.header_eq, hi.footer_eq, hi.fields_eq, hi.colsOk,
+      widthsFaithful_of_fresh _ hw, skipFaithful_of_none _ rfl⟩
   | removeFresh a t names _ hw hs ih =>
     have hi := ih ha
     have hsub : ∀ c ∈ (removeCols t names).fmt.cols, c ∈ t.fmt.cols := by
@@ -663,7 +670,9 @@ theorem mkFields_specsOf_colN (pos n : Nat) : mkFields pos (specsOf (colNFields 
 
 /-- A table built without `fields` (and without explicit columns) is the table built with
 `fields=["col_1", …]` (or the dummy field's name): the same state, and the names are expressible. -/
-theorem mkTable_fieldless (a : CtorArgs) (ha : a.fields = Option.none) (t : Tbl) (h : mkTable a = .ok t) :
+theorem mkTable_fieldless (a : CtorArgs) (ha : a.fields = Option.none)
+    (hcols : ∀ p cs, parseFmt (match a.fmt with | some s => s | Option.none => []) = .ok p → p.cols ≠ .explicit cs)
+    (t : Tbl) (h : mkTable a = .ok t) :
     mkTable { a with fields := some (specsOf t.fmt.fields) } = .ok t ∧
       ∀ sp ∈ specsOf t.fmt.fields, NameOk sp.name := by
   unfold mkTable at h
@@ -671,7 +680,7 @@ theorem mkTable_fieldless (a : CtorArgs) (ha : a.fields = Option.none) (t : Tbl)
   obtain ⟨p, hp, fc, hfc, h⟩ := h
   cases h
   cases hpc : p.cols with
-  | explicit cs => simp [hpc] at hfc
+  | explicit cs => exact absurd hpc (hcols p cs hp)
   | keep =>
     simp only [hpc, Except.ok.injEq] at hfc
     subst hfc
@@ -679,8 +688,8 @@ theorem mkTable_fieldless (a : CtorArgs) (ha : a.fields = Option.none) (t : Tbl)
     cases hrec : a.records with
     | nil =>
       simp only
-      have hspec : mkFields 0 (specsOf [⟨Gen.C12.dummyField, FType.dflt, 0, [Val.str Gen.C12.dummyField]⟩])
-          = [⟨Gen.C12.dummyField, FType.dflt, 0, [Val.str Gen.C12.dummyField]⟩] := by
+      have hspec : mkFields 0 (specsOf [⟨Gen.C12.dummyField, FType.dflt, 0, [Val.str Gen.C12.dummyField], false⟩])
+          = [⟨Gen.C12.dummyField, FType.dflt, 0, [Val.str Gen.C12.dummyField], false⟩] := by
         simp only [specsOf, List.map_cons, List.map_nil, mkFields]
         rw [genTitleLines_none _ dummy_ok.1 dummy_ok.2.2]
         rfl
@@ -716,8 +725,8 @@ theorem mkTable_fieldless (a : CtorArgs) (ha : a.fields = Option.none) (t : Tbl)
     cases hrec : a.records with
     | nil =>
       simp only
-      have hspec : mkFields 0 (specsOf [⟨Gen.C12.dummyField, FType.dflt, 0, [Val.str Gen.C12.dummyField]⟩])
-          = [⟨Gen.C12.dummyField, FType.dflt, 0, [Val.str Gen.C12.dummyField]⟩] := by
+      have hspec : mkFields 0 (specsOf [⟨Gen.C12.dummyField, FType.dflt, 0, [Val.str Gen.C12.dummyField], false⟩])
+          = [⟨Gen.C12.dummyField, FType.dflt, 0, [Val.str Gen.C12.dummyField], false⟩] := by
         simp only [specsOf, List.map_cons, List.map_nil, mkFields]
         rw [genTitleLines_none _ dummy_ok.1 dummy_ok.2.2]
         rfl
